@@ -5,6 +5,8 @@ mod c10;
 mod c11;
 mod c17;
 mod c18;
+mod c25;
+mod c29;
 mod gens;
 mod lang;
 mod vrlrun;
@@ -16,15 +18,23 @@ use sink::Reply;
 use std::io::BufRead;
 use std::path::PathBuf;
 
-/// Run one case (`op` + inputs) on the implementation.
+type Exec = fn(&str, &[String]) -> Option<Reply>;
+
+/// one entry per module (keep one per line: builder branches are merged by line union)
+const EXECS: &[Exec] = &[
+    c18::exec,
+    lang::exec,
+    c17::exec,
+    arith::exec,
+    c10::exec,
+    c11::exec,
+    c25::exec,
+    c29::exec,
+];
+
+/// Run one case (`op` + inputs) on the implementation: the first module that recognises the op answers.
 pub fn exec(op: &str, inputs: &[String]) -> Option<Reply> {
-    // first module that recognises the op answers
-    None.or_else(|| c18::exec(op, inputs))
-        .or_else(|| lang::exec(op, inputs))
-        .or_else(|| c17::exec(op, inputs))
-        .or_else(|| arith::exec(op, inputs))
-        .or_else(|| c10::exec(op, inputs))
-        .or_else(|| c11::exec(op, inputs))
+    EXECS.iter().find_map(|f| f(op, inputs))
 }
 
 fn generate(prop: &str, sink: &mut sink::Sink, rng: &mut rng::Rng, n: u64) -> bool {
@@ -39,6 +49,8 @@ fn generate(prop: &str, sink: &mut sink::Sink, rng: &mut rng::Rng, n: u64) -> bo
         "C13" => lang::generate(sink, rng, n, false, Some("o.c13")),
         "C10" => c10::generate(sink, rng, n),
         "C11" => c11::generate(sink, rng, n),
+        "C25" => c25::generate(sink, rng, n),
+        "C29int" => c29::generate(sink, rng, n),
         _ => return false,
     }
     true
